@@ -19,15 +19,21 @@ import time
 CACHE_ROOT = os.environ.get("VERIF_REPLAY_CACHE", "/var/tmp/ipcverif-replay-cache")
 
 
-def demos_for(verif, props):
-    out = []
+def demos_for(verif, props, obligations=()):
+    """Demonstration tests for the given properties; those kept with a change that failed one of the same
+    obligations come first (the order is only a search heuristic)."""
+    out, first = [], []
+    keys = [re.sub(r"[^A-Za-z0-9_.-]+", "_", o)[:120] for o in obligations]
     for d in sorted(glob.glob(os.path.join(verif, "seeded", "*-*"))):
         try:
             m = json.load(open(os.path.join(d, "meta.json")))
         except Exception:
             continue
         if m.get("property") in props and os.path.exists(os.path.join(d, "demo.rs")):
-            out.append((os.path.basename(d).replace("-", "_").lower(), os.path.join(d, "demo.rs")))
+            item = (os.path.basename(d).replace("-", "_").lower(), os.path.join(d, "demo.rs"))
+            lines = " ".join(l for c in (m.get("check_results") or {}).values() for l in c.get("lines", []))
+            (first if any(k and k in lines for k in keys) else out).append(item)
+    out = first + out
     for f in sorted(glob.glob(os.path.join(verif, "findings", "*_demo.rs"))):
         tag = os.path.basename(f).split("_")[0][:3].upper()
         if tag in props:
@@ -35,8 +41,8 @@ def demos_for(verif, props):
     return out
 
 
-def search(repo, verif, props, budget_s=240, max_demos=14):
-    demos = demos_for(verif, set(props))[:max_demos]
+def search(repo, verif, props, obligations=(), budget_s=150, max_demos=10):
+    demos = demos_for(verif, set(props), obligations)[:max_demos]
     if not demos:
         return None
     lock_path = os.path.join(repo, "Cargo.lock")
@@ -62,20 +68,20 @@ def search(repo, verif, props, budget_s=240, max_demos=14):
             shutil.copy(path, os.path.join(d, "tests", "replay_%s.rs" % name))
         env = dict(os.environ, CARGO_NET_OFFLINE="true", CARGO_TARGET_DIR=os.path.join(d, "target"))
         env.pop("RUSTFLAGS", None)
-        p = subprocess.run(["cargo", "test", "--offline", "--tests", "--no-run"], cwd=d, env=env, capture_output=True, text=True, timeout=900)
+        p = subprocess.run(["cargo", "test", "--offline", "--tests", "--no-run"], cwd=d, env=env, capture_output=True, text=True, timeout=420)
         built = p.returncode == 0
         tried, failing = [], []
         for name, path in demos:
-            if time.time() - t0 > budget_s + 120:
+            if time.time() - t0 > budget_s:
                 break
             try:
                 q = subprocess.run(["cargo", "test", "--offline", "--test", "replay_%s" % name, "--", "--test-threads", "1"],
-                                   cwd=d, env=env, capture_output=True, text=True, timeout=90)
+                                   cwd=d, env=env, capture_output=True, text=True, timeout=60)
                 out = q.stdout + "\n" + q.stderr
                 failed = ("test result: FAILED" in out) or ("SIGABRT" in out) or ("SIGSEGV" in out)
                 compiled = "test result:" in out or failed
             except subprocess.TimeoutExpired as e:
-                out = "timeout after 90 s (the test hangs on this code)\n" + ((e.stdout or b"").decode() if isinstance(e.stdout, bytes) else (e.stdout or ""))[-400:]
+                out = "timeout after 60 s (the test hangs on this code)\n" + ((e.stdout or b"").decode() if isinstance(e.stdout, bytes) else (e.stdout or ""))[-400:]
                 failed, compiled = True, True
                 subprocess.run("pkill -9 -f 'replay_%s-' ; true" % name, shell=True)
             tried.append(name)
@@ -83,8 +89,7 @@ def search(repo, verif, props, budget_s=240, max_demos=14):
                 tail = "\n".join([l for l in out.splitlines() if ("panicked" in l or "test result" in l or "left:" in l or "right:" in l
                                                                       or "timeout" in l or l.startswith("test "))][:14])
                 failing.append({"demo": os.path.relpath(path, verif), "output": tail[:1500]})
-                if len(failing) >= 2:
-                    break
+                break                       # one failing input is what the report needs
         return {"tried": tried, "failing": failing, "built": built, "wall_s": round(time.time() - t0, 1),
                 "how": "scratch copy of /repo's working tree + the listed demo as tests/replay_<name>.rs; cargo test --offline --test replay_<name>"}
     finally:
